@@ -27,6 +27,9 @@ type Rec struct {
 	Obs  json.RawMessage `json:"obs"`
 	Src  string          `json:"src"`
 	Prop string          `json:"prop"`
+	Fn   string          `json:"fn"`
+	Args json.RawMessage `json:"args"`
+	Res  json.RawMessage `json:"res"`
 }
 
 func canon(raw []byte) string {
@@ -124,6 +127,37 @@ func runReplay(job *Job) Result {
 			os.Exit(2)
 		}
 		nrec++
+		if r.Fn != "" {
+			got := callFn(r.Fn, r.Args)
+			res.Stats.Calls++
+			bad := ""
+			if r.Src == "decl" {
+				bad = subset(parseAny(string(r.Res)), parseAny(got), "res")
+			} else if canon(r.Res) != canon([]byte(got)) {
+				bad = "differs"
+			}
+			if bad != "" && r.Src == "decl" {
+				declBad++
+				if len(res.Violations) < job.MaxViol {
+					res.Violations = append(res.Violations, Violation{Prop: r.Prop, What: "real result differs from the intended result",
+						Text: r.Fn + string(r.Args), Detail: bad + "\nreal: " + got, Sig: "decl:" + r.Fn})
+				}
+			} else if bad != "" {
+				drift++
+				if len(driftSamples) < 10 {
+					driftSamples = append(driftSamples, fmt.Sprintf("%s%s: model %s | code %s", r.Fn, r.Args, canon(r.Res), canon([]byte(got))))
+				}
+				if driftOut != nil {
+					rr, _ := json.Marshal(map[string]interface{}{"fn": r.Fn, "args": r.Args, "res": json.RawMessage(got)})
+					driftOut.Write(rr)
+					driftOut.WriteByte('\n')
+				}
+			}
+			if nrec%5000 == 1 && len(res.Samples) < 8 {
+				res.Samples = append(res.Samples, r.Fn+string(r.Args)+" -> "+got)
+			}
+			continue
+		}
 		c := r.Cfg
 		if c.Kind == "" {
 			c.Kind = r.K
